@@ -38,20 +38,20 @@ type schedCase struct {
 type arrival struct {
 	Kind string `json:"kind"` // opt | gate | done | stuck | foreign
 	K    int    `json:"k"`
+	V    int    `json:"v"` // the evaluation that announced itself (its %id, or the goroutine's own id for opt/done)
 }
 
 type controller struct {
 	mu     sync.Mutex
 	free   bool
 	freeCh chan struct{}
-	arr    map[int]chan arrival
+	arr    chan arrival
 	rel    map[int]chan struct{}
 }
 
 func newController(vs []int, free bool) *controller {
-	c := &controller{free: free, freeCh: make(chan struct{}), arr: map[int]chan arrival{}, rel: map[int]chan struct{}{}}
+	c := &controller{free: free, freeCh: make(chan struct{}), arr: make(chan arrival, 1024), rel: map[int]chan struct{}{}}
 	for _, v := range vs {
-		c.arr[v] = make(chan arrival, 256)
 		c.rel[v] = make(chan struct{}, 256)
 	}
 	if free {
@@ -77,14 +77,15 @@ func (c *controller) block(v int, kind string, k int) {
 	if free {
 		return
 	}
-	a, ok := c.arr[v]
+	c.arr <- arrival{kind, k, v}
+	rel, ok := c.rel[v]
 	if !ok {
 		// an evaluation announced an id no evaluation of this schedule has
+		<-c.freeCh
 		return
 	}
-	a <- arrival{kind, k}
 	select {
-	case <-c.rel[v]:
+	case <-rel:
 	case <-c.freeCh:
 	}
 }
@@ -111,7 +112,7 @@ func (c *controller) gatedEvalOpts(v int, os []eopt) []fhirpath.EvaluateOption {
 	return out
 }
 
-const stepWait = 20 * time.Second
+const stepWait = 10 * time.Second
 
 type evalObs struct {
 	Out lib.Outcome `json:"out"`
@@ -181,7 +182,7 @@ func replaySchedule(sc schedCase) map[string]any {
 	for _, st := range sc.Steps {
 		v := st.V
 		if finished[v] {
-			arrs = append(arrs, arrival{"stuck", -1})
+			arrs = append(arrs, arrival{"stuck", -1, v})
 			continue
 		}
 		if !started[v] {
@@ -193,20 +194,27 @@ func replaySchedule(sc schedCase) map[string]any {
 				rmu.Lock()
 				results[v] = &evalObs{Out: out, T0: t0, T1: t1}
 				rmu.Unlock()
-				ctrl.arr[v] <- arrival{"done", 0}
+				ctrl.arr <- arrival{"done", 0, v}
 			}(v)
 		} else {
 			ctrl.rel[v] <- struct{}{}
 		}
 		select {
-		case a := <-ctrl.arr[v]:
+		case a := <-ctrl.arr:
+			if a.V != v {
+				// another evaluation moved, or v announced itself under a foreign id: the
+				// schedule cannot be imposed; let everything run
+				a.Kind = "foreign"
+				degraded = true
+				ctrl.setFree()
+			}
 			arrs = append(arrs, a)
 			if a.Kind == "done" {
 				finished[v] = true
 			}
 		case <-time.After(stepWait):
 			// v did not reach its next gate: the schedule cannot be imposed; let everything run
-			arrs = append(arrs, arrival{"stuck", 0})
+			arrs = append(arrs, arrival{"stuck", 0, v})
 			degraded = true
 			ctrl.setFree()
 		}
